@@ -14,7 +14,7 @@ LEVEL_TEXT = (
     "(serial and parallel pool sizes, all generators, option combinations) against the item contract."
 )
 LEVEL_NOTE = ("Trusted: pyvc encoding; RNG library contracts (value ranges only: every draw is a fresh universally quantified value, so a proved clause holds for every schedule and RNG state); "
-              "dataclass-generated __init__ (stores fields, runs __post_init__); get_nodes (assumed: every cell once; bounded in C13); lemmas reach_common, reach_induction, dist/astar_cut "
+              "dataclass-generated __init__ (stores fields, runs __post_init__); get_nodes (verified under C13: every cell once, row-major); lemmas reach_common, reach_induction, dist/astar_cut "
               "(C02); multiprocessing.Pool.imap delivers one result per task in task order (bounded runs only).")
 TECHNIQUE = "contract-based deductive verification (endpoint selection, solved-maze construction, solver closure, item lemmas over generator contracts; z3) + bounded run-time checking of the real generate pipeline incl. worker pools"
 CONTRACT_MODULES = ["contracts.lattice_maze", "contracts.solver", "contracts.generators", "contracts.serialization", "contracts.paths"]
